@@ -595,6 +595,11 @@ impl Model {
                     let v = self.get_cached(c, *ty, id, rec);
                     out.push(V::Bool(v.is_some()));
                 }
+                Op::Insert { ty, id, n } => {
+                    // looks the key up (recorded like get_cached), inserts when absent
+                    let _ = self.get_cached(c, *ty, id, rec);
+                    out.push(self.get_or_insert(c, *ty, id, *n).0);
+                }
                 Op::Owned { ty, id } => match self.load_owned(c, *ty, id, rec) {
                     Ok(v) => out.push(V::Res(Ok(Box::new(v)))),
                     Err(Stop::Err(e)) => out.push(V::Res(Err(e))),
